@@ -378,3 +378,6 @@ mutant("c09-gauss-err-real-part", "C09", "R9.5", (GA, "        let err = (area -
 mutant("c13-integrate-equal-real-parts", "C13", "R13.3/Polynomial::integrate/F(b)-F(a):complex", (PM, "        poly_anti.evaluate(upper) - poly_anti.evaluate(lower)\n", "        if lower.real() == upper.real() {\n            return N::zero();\n        }\n        poly_anti.evaluate(upper) - poly_anti.evaluate(lower)\n"))
 benign("c13-integrate-equal-limits-shortcut", "C13", (PM, "        poly_anti.evaluate(upper) - poly_anti.evaluate(lower)\n", "        if lower == upper {\n            return N::zero();\n        }\n        poly_anti.evaluate(upper) - poly_anti.evaluate(lower)\n"))
 mutant("c11-purge-leading-real-twice", "C11", "R11.7/Polynomial::purge_leading/keeps-imaginary-lead", (PM, "            && self.coefficients.last().unwrap().imaginary().abs() <= self.tolerance", "            && self.coefficients.last().unwrap().real().abs() <= self.tolerance"))
+IM = "src/integrate/mod.rs"
+mutant("c09-simpson-accept-real-part", "C09", "R9.", (IM, "        if (s1 + s2 - v_7).abs() < v_6 {", "        if (s1 + s2 - v_7).real().abs() < v_6 {"))
+mutant("c09-de-delta-real-part", "C09", "R9.", (IM, "        current_delta = (half * integral - new_contribution).abs();", "        current_delta = (half * integral - new_contribution).real().abs();"))
